@@ -127,6 +127,27 @@ func c07RunDirect(c *kit.Case, in *c07Input, id uint64, gas Gas) *c07Res {
 	if oerr != "" {
 		c.Failf("%s.%s exit %v: %s", c07KindNames[in.Kind], c07Names[id], out.ExitReason, oerr)
 	}
+	// what a host call keeps (a stored value, a provided blob, a machine's program) is the host's
+	// own copy: the guest overwriting its memory afterwards must not change the host-side state
+	scribble := func() {
+		for _, pg := range env.mem.Pages {
+			if pg != nil {
+				for i := range pg.Value {
+					pg.Value[i] ^= 0xFF
+				}
+			}
+		}
+	}
+	scribble()
+	again, oerr2 := c07Observe(in.Kind, out.Addition, env.table)
+	scribble()
+	if oerr2 != "" {
+		c.Failf("%s.%s: after the guest overwrote its memory: %s", c07KindNames[in.Kind], c07Names[id], oerr2)
+	}
+	if d := c07ObsDiffX(res.post, again) + c07ObsDiffY(res.post, again); d != "" {
+		c.Failf("%s.%s exit %v: host-side state changed when the guest overwrote its own memory after the call (a retained value aliases guest memory): %s",
+			c07KindNames[in.Kind], c07Names[id], out.ExitReason, d)
+	}
 	return res
 }
 
